@@ -772,6 +772,13 @@ func (g *Gen) val0(v ssa.Value, st *State) Term {
 		t = g.w.freshTyped("fv_"+x.Name(), x.Type())
 	case *ssa.Global:
 		t = T("0", "Int") // address of global; loads handled by resolveAddr
+		if et, ok := x.Type().Underlying().(*types.Pointer); ok {
+			if stt, isStruct := et.Elem().Underlying().(*types.Struct); isStruct && stt.NumFields() > 0 {
+				// a struct-typed package variable is an object like any other (its address may be a receiver or an
+				// argument): a fixed, non-nil reference of its own
+				t = g.w.globalRef("G:" + x.String())
+			}
+		}
 	case *ssa.Function:
 		t = g.w.fresh("fn", "Int")
 		g.w.assume(fmt.Sprintf("(not (= %s 0))", t.S))
@@ -804,6 +811,9 @@ func (g *Gen) resolveAddr(v ssa.Value, st *State) Addr {
 		return Addr{kind: "cell", alloc: x, typ: et}
 	case *ssa.Global:
 		et := x.Type().Underlying().(*types.Pointer).Elem()
+		if stt, isStruct := et.Underlying().(*types.Struct); isStruct && stt.NumFields() > 0 {
+			return Addr{kind: "heap", key: "obj:" + types.TypeString(et, nil), ref: g.w.globalRef("G:" + x.String()), typ: et}
+		}
 		return Addr{kind: "heap", key: "G:" + x.String(), ref: T("0", "Int"), typ: et}
 	}
 	// a pointer VALUE to a struct: object stored whole under key "obj:<type>"
@@ -2840,4 +2850,19 @@ func interiorOf(ts, name string, depth int) bool {
 		}
 	}
 	return false
+}
+
+// globalRef: the reference of a struct-typed package variable: positive, and distinct from the other globals'.
+func (w *World) globalRef(key string) Term {
+	t := w.globalID(key)
+	if !w.pureDecl["gref:"+key] {
+		w.pureDecl["gref:"+key] = true
+		w.assumeGlobal(fmt.Sprintf("(> %s 0)", t.S))
+		for k := range w.pureDecl {
+			if strings.HasPrefix(k, "gref:") && k != "gref:"+key {
+				w.assumeGlobal(fmt.Sprintf("(not (= %s %s))", t.S, w.globalID(strings.TrimPrefix(k, "gref:")).S))
+			}
+		}
+	}
+	return t
 }
